@@ -4,6 +4,7 @@ mod c13;
 mod c15;
 mod c16;
 mod c17;
+mod c28;
 mod c29;
 mod c30;
 mod c33;
@@ -37,6 +38,7 @@ fn main() {
         "C15" => c15::run(&mut check),
         "C16" => c16::run(&mut check),
         "C17" => c17::run(&mut check),
+        "C28" => c28::run(&mut check),
         "C29" => c29::run(&mut check),
         "C30" => c30::run(&mut check),
         "C33" => c33::run(&mut check),
